@@ -151,7 +151,7 @@ pub fn check(c: &Case) -> Outcome {
             }
         }
         // a time event has exactly one root
-        if let Ev::Time { c: root } = &e.g {
+        if let Ev::Time { c: root } = e.g.unscaled() {
             let on_grid = sol.t.iter().any(|t| t == root);
             let wanted = e.dir == 0 || (e.dir as f64) * d > 0.0;
             if !on_grid && wanted {
@@ -177,7 +177,10 @@ pub fn check(c: &Case) -> Outcome {
 }
 
 pub fn strategy() -> BoxedStrategy<Case> {
-    (prob_spec(4, 0.5, 8.0), span_mid(), any_method(), tols(4, 3.0, 9.0), any::<bool>(), proptest::option::weighted(0.2, log10(-1.5, 0.0)))
+    // ordinary spans; one case in twelve runs on a picosecond-scale time axis (accepted steps shorter than the
+    // root finder's absolute time tolerance)
+    let span = prop_oneof![11 => span_mid().boxed(), 1 => (fr(-11.3, -8.0), any::<bool>()).prop_map(|(e, back)| mk_span(0.0, 10f64.powf(e), back)).boxed()];
+    (prob_spec(4, 0.5, 8.0), span, any_method(), tols(4, 3.0, 9.0), any::<bool>(), proptest::option::weighted(0.2, log10(-1.5, 0.0)))
         .prop_flat_map(|(prob, span, method, tol, aj, ms)| {
             let n: usize = prob.blocks.iter().map(|b| b.dim()).sum();
             (Just((prob, span, method, tol, aj, ms)), recipes(n, 4, 0.0))
